@@ -232,8 +232,8 @@ def separates_rules(rep, prog):
         return frozenset(out)
     ok = False
     for r in raises:
-        if len(r.path) == 1 and r.path[0][1] is True:
-            p = npred(r.path[0][0], True)
+        if len(r.path) == 1:
+            p = npred(r.path[0][0], r.path[0][1])
             parts = p[1] if p[0] == "or" else frozenset([p])
             if all(len(x) == 2 for x in parts) and sym_norm(parts) == sym_norm(want):
                 ok = True
